@@ -8,7 +8,7 @@ namespace Driver
 def opSpecMatch : Op := fun j => do
   let d ← Json.fieldDoc j "d"
   let q ← Json.fieldDoc j "q"
-  -- optional "ex": true — test membership in the PROVED domain (core minus the known deviations D1–D6)
+  -- optional "ex": true — test membership in the PROVED domain (core minus the known deviation D3)
   let ex := match j.getObjVal? "ex" with
     | .ok (.bool b) => b
     | _ => false
